@@ -25,6 +25,7 @@ import MenpoModel.Lemmas.C10Linear
 import MenpoModel.Lemmas.C10Float
 import MenpoModel.Lemmas.C10Access
 import MenpoModel.Lemmas.C10Object
+import MenpoModel.Lemmas.C10Src
 
 namespace MenpoModel.C10
 open Matrix St
@@ -505,6 +506,48 @@ theorem ortho_against_bookkeeping {eig0 : List Rat} (h0 : eig0 ≠ []) (ops : Li
   · have := ortho_degenerate (d := d) (k1 := k1) hr.rows_pos h
     exact ⟨this, by simp [St.step, St.apply, this]⟩
 
+/-! ### the source as translated (`Core/C10Src.lean`, `Generated/C10Src.lean`, `GenProps/C10Src*.lean`) -/
+
+/-- PROPERTY (the code's float form in exact arithmetic): the code clamps the count of the variance-fraction form to
+`n_components` (`min(np.sum([...]) + 1, self.n_components)`); after every history that clamp is a no-op on the exact
+ratios, i.e. the coded form IS `Val.float`, the form the theorems above are about. -/
+theorem clamp_is_noop_in_exact_arithmetic {eig0 : List Rat} (h0 : eig0 ≠ []) (ops : List Op) (r : Rat) :
+    let s := (init eig0.length eig0).run ops
+    s.setActive (.floatObsClamped r s.totalVarianceRatio s.totalCumRatio) = s.setActive (.float r) :=
+  clamp_noop_exact (reach_run (reach_init h0) ops) r
+
+/-- PROPERTY (constructors: "building with that many components in the first place"): whatever the library calls
+return (`np : Src.NP A`, symbolic arrays), the bookkeeping state built by `PCAVectorModel(…)`, `PCAModel(…)` and the
+`init_from_covariance_matrix` / `init_from_components` constructors of both classes is `build` on the number of
+eigenvector rows, the eigenvalues and the `max_n_components` argument — so `trim_eq_build_with_max` and its relatives
+speak about what every constructor builds; `PCAModel` records the number of rows of its data matrix as `n_samples` and
+`as_matrix`' template as its template.  (`GenProps/C10Src.lean` proves the translated constructors equal to these.) -/
+theorem constructors_build {A : Type} (np : Src.NP A) (fl : Src.Fl) (self : Src.Plumb A) (X C comps ev mean : A)
+    (centre inv ip : Bool) (ns mx : Src.PyVal) :
+    (let out := np.pca (Src.dataToMatrix np X ns).1 centre ip Src.pcaEps
+     (Src.vecInit np fl self X centre ns mx ip).map (·.toSt) =
+        build (np.shape0 out.1) (np.values out.2.1) (mx.toOptVal fl (init (np.shape0 out.1) (np.values out.2.1)))) ∧
+    (let dt := np.asMatrix X ns true
+     let out := np.pca (Src.dataToMatrix np dt.1 (Src.PyVal.int (np.shape0 dt.1))).1 centre ip Src.pcaEps
+     (Src.objInit np fl self X centre ns mx ip).map (·.toSt) =
+        build (np.shape0 out.1) (np.values out.2.1) (mx.toOptVal fl (init (np.shape0 out.1) (np.values out.2.1))) ∧
+     ∀ p, Src.objInit np fl self X centre ns mx ip = .ok p →
+       p.nSamples = Src.PyVal.int (np.shape0 dt.1) ∧ p.template = some dt.2 ∧ p.comps = some out.1) ∧
+    (let out := np.pcacov C inv Src.pcacovEps
+     (Src.vecFromCov np fl C mean ns centre inv mx).map (·.toSt) =
+        build (np.shape0 out.1) (np.values out.2) (mx.toOptVal fl (init (np.shape0 out.1) (np.values out.2))) ∧
+     (Src.objFromCov np fl C mean ns centre inv mx).map (·.toSt) =
+        build (np.shape0 out.1) (np.values out.2) (mx.toOptVal fl (init (np.shape0 out.1) (np.values out.2)))) ∧
+    (Src.vecFromComponents np fl comps ev mean ns centre mx).map (·.toSt) =
+        build (np.shape0 comps) (np.values ev) (mx.toOptVal fl (init (np.shape0 comps) (np.values ev))) ∧
+    (Src.objFromComponents np fl comps ev mean ns centre mx).map (·.toSt) =
+        build (np.shape0 comps) (np.values ev) (mx.toOptVal fl (init (np.shape0 comps) (np.values ev))) := by
+  refine ⟨(vecInit_spec np fl self X centre ns mx ip).1, ⟨(objInit_spec np fl self X centre ns mx ip).1, fun p hp => ?_⟩,
+    ⟨(fromCov_spec np fl C mean ns centre inv mx).1, (fromCov_spec np fl C mean ns centre inv mx).2.1⟩,
+    (fromComponents_spec np fl comps ev mean ns centre mx).1, (fromComponents_spec np fl comps ev mean ns centre mx).2.1⟩
+  obtain ⟨a1, _, _, a4, a5⟩ := (objInit_spec np fl self X centre ns mx ip).2 p hp
+  exact ⟨a4, a5, a1⟩
+
 /-! ## non-vacuity: the hypotheses are satisfiable on concrete non-trivial values -/
 
 section Examples
@@ -617,6 +660,10 @@ example : (init 4 [8, 4, 2, 2]).orthoAgainst 5 2 = .ok { rows := 3, eig := [8, 4
     (init 4 [8, 4, 2, 2]).orthoAgainst 2 2 = .error .value := by decide +kernel
 example : ((init 4 [8, 4, 2, 2]).run exOps).inverseNoiseVariance = .ok (3 / 8) ∧
     (init 4 [8, 4, 2, 2]).inverseNoiseVariance = .error .value := by decide +kernel
+
+/-- the clamp at work only under rounding: exact ratios of `[4, 2, 1]`, fraction 1 -/
+example : (init 3 [4, 2, 1]).setActive (.floatObsClamped 1 (init 3 [4, 2, 1]).totalVarianceRatio
+    (init 3 [4, 2, 1]).totalCumRatio) = (init 3 [4, 2, 1]).setActive (.float 1) := by decide +kernel
 
 end Examples
 
